@@ -110,7 +110,7 @@ def derive(ctx, rng, case):
         ctx.count("subst_result_rejects_value(C04)")
         return None
     try:
-        rspec = dec.decode(res)
+        rspec = dec.inherit_examples(dec.decode(res), spec)
     except dec.DecodeError:
         rspec = None
     return rspec, res, "substituted"
